@@ -659,6 +659,71 @@ def rule_path_prefix(chk, prog):
     return n
 
 
+def rule_skip_layer(chk, prog):
+    """K12-skiplayer: sqfs2tar leaves out what tar cannot express (the header writer answers 'unsupported' for every file
+    type outside the set its switch knows), but the hard link filter that sits underneath records every entry it hands out
+    as a possible link target.  So that no later member is written as a hard link to a member that was left out, the
+    entries of the unsupported types are dropped below the filter: the iterator the filter is stacked on tests the file
+    type against S_IFSOCK (or against the set the writer accepts).  Decided: that such a test exists in the unit of that
+    iterator; not that it does the right thing."""
+    S_IFMT, S_IFSOCK = 0o170000, 0o140000
+    hdr = prog.fn("write_tar_header")
+    if hdr is None or hdr.decl:
+        chk.broke("write_tar_header not found")
+        return 0
+    hdr.build()
+    accepted = None
+    for i in hdr.insts():
+        if i.op == "switch":
+            v = i.ops[0]
+            while v.is_inst and v.op in ("zext", "sext", "trunc"):
+                v = v.ops[0]
+            if v.is_inst and v.op == "and" and any(o.is_const and o.is_int and o.uval == S_IFMT for o in v.ops):
+                accepted = {(c.uval if hasattr(c, "uval") else c) for c, _b in i.x["cases"]}
+    if accepted is None:
+        chk.note("K12-skiplayer: the header writer does not select the member type by a switch over the file type")
+        return 0
+    if S_IFSOCK in accepted:
+        return 0
+    creates = [(f, c) for f in prog.functions() if not f.decl and f.unit.src.startswith("bin/sqfs2tar/")
+               for c in f.build().calls() if norm_callee(c.callee) == "sqfs_hard_link_filter_create"]
+    n = 0
+    for (f, c) in creates:
+        n += 1
+        chk.analysed(f)
+        inst = "%s:sqfs_hard_link_filter_create" % f.name
+        found = None
+        for g in prog.functions():
+            if g.decl or g.unit.src != "bin/sqfs2tar/src/iterator.c":
+                continue
+            for i in g.build().insts():
+                consts = []
+                if i.op == "icmp":
+                    consts = [o.uval for o in i.ops if o.is_const and o.is_int]
+                    v = [o for o in i.ops if not o.is_const]
+                elif i.op == "switch":
+                    consts = [(k.uval if hasattr(k, "uval") else k) for k, _b in i.x["cases"]]
+                    v = [i.ops[0]]
+                else:
+                    continue
+                if not v:
+                    continue
+                x = v[0]
+                while x.is_inst and x.op in ("zext", "sext", "trunc"):
+                    x = x.ops[0]
+                if x.is_inst and x.op == "and" and any(o.is_const and o.is_int and o.uval == S_IFMT for o in x.ops) and \
+                        (S_IFSOCK in consts or set(consts) >= accepted):
+                    found = i
+        if found is not None:
+            chk.ok("K12-skiplayer", inst, c, "the iterator under the hard link filter tests the file type against what tar cannot express")
+        else:
+            chk.violation("K12-skiplayer", inst, c, "the header writer refuses file types outside %s (sockets) and sqfs2tar skips such "
+                          "entries, but nothing below the hard link filter drops them: the filter has recorded the skipped entry, "
+                          "and a later name of the same inode is written as a hard link to a member that is not in the archive"
+                          % sorted("%o" % a for a in accepted))
+    return n
+
+
 def rule_pax_len(chk, prog):
     """a PAX record '<len> key=value\\n' counts its own length field.  The number of digits of <len> depends on <len> itself,
     so it can only be found by iterating until the digit count no longer changes (98 + 2 = 100 needs 3 digits).  Rule: the
@@ -875,7 +940,7 @@ def run(chk):
         "well-formed output: header checksum computed last, data padded to records, sqfs2tar terminates and flushes the "
         "archive before it reports success, unsupported entries are recognised; names are funnelled through "
         "canonicalize_name (decided by C18); truncated input is an error in the archive layer (T1/T2); the PAX mask is "
-        "reset with the header (K9-mask). K11-skipclean: the header writer answers 'unsupported' (which sqfs2tar takes for 'skipped') only on paths on which nothing was written yet. K2-prefix: a path selected by a length-limited comparison with another path (--subdir) is accepted only together with a test of the component boundary. K13-recpad (sa/residue.py): the bytes record_to_memory takes off the stream and the bytes padd_file adds are the payload rounded up to whole 512-byte records, evaluated over every residue of the size.")
+        "reset with the header (K9-mask). K11-skipclean: the header writer answers 'unsupported' (which sqfs2tar takes for 'skipped') only on paths on which nothing was written yet. K2-prefix: a path selected by a length-limited comparison with another path (--subdir) is accepted only together with a test of the component boundary. K13-recpad (sa/residue.py): the bytes record_to_memory takes off the stream and the bytes padd_file adds are the payload rounded up to whole 512-byte records, evaluated over every residue of the size. K12-skiplayer: entries of a type the header writer refuses are dropped below the hard link filter (which records everything it hands out as a possible link target).")
     chk.assumptions = ["field decoding of the dialects, sparse maps, link retargeting and idempotence are not decided"]
     from .c07 import validation_rule, mask_rule
     allp = load_program("all")
@@ -898,6 +963,7 @@ def run(chk):
     chk.floor("K11-skipclean", 1)
     rule_path_prefix(chk, s2t)
     chk.floor("K2-prefix", 1)
+    rule_skip_layer(chk, s2t)
     from ..residue import run_recpad
     run_recpad(chk, load_program("tar2sqfs"), "K13-recpad", [("record_to_memory", 1, False)])
     run_recpad(chk, s2t, "K13-recpad", [("padd_file", 1, True)])
